@@ -137,6 +137,51 @@ class Case:
                     w.observe()
                     self.trace.append((step, "dwa"))
                     continue
+                if kind == "pair":
+                    # a request and its T-flagged repeat in one write (a failover retransmission crossing the answer):
+                    # the node meets the repeat in the same read, after it has answered the first
+                    _, o, e, t = step[:4]
+                    origin = ORIGINS[o] if o < 2 else f"relay{ci + 1}.verif.example"
+                    e2e = E2E[e]
+                    if any(p[0] == origin and p[1] == e2e for p in self.pending):
+                        continue
+                    self.hbh += 2
+                    h1, h2 = self.hbh - 1, self.hbh
+                    dup1 = bool(t) and e2e in self.window.get(origin, [])
+                    sp.send(M.ccr(origin, self.REALM, self.REALM, app=4, hbh=h1, e2e=e2e, flags=0xc0 | (0x10 if t else 0),
+                                  session=f"s;{si}") +
+                            M.ccr(origin, self.REALM, self.REALM, app=4, hbh=h2, e2e=e2e, flags=0xd0, session=f"s;{si}"))
+                    h.settle()
+                    ev = w.observe()["events"]
+                    sp.drain()
+                    new = sp.frames[seen:]
+                    d1 = [x for x in ev if x["kind"] == "app_request" and (x["hbh"], x["e2e"]) == (h1, e2e)]
+                    d2 = [x for x in ev if x["kind"] == "app_request" and (x["hbh"], x["e2e"]) == (h2, e2e)]
+                    a1 = [f for f in new if not f.is_request and (f.h.hbh, f.h.e2e) == (h1, e2e)]
+                    a2 = [f for f in new if not f.is_request and (f.h.hbh, f.h.e2e) == (h2, e2e)]
+                    ctx = {"step": si, "origin": origin, "e2e": e2e, "T": t, "window": dict(self.window), "pair": True}
+                    self.trace.append((step, "dup" if dup1 else "fresh", len(d1), [f.result_code for f in a1],
+                                       len(d2), [f.result_code for f in a2]))
+                    self.run.cov["request_and_repeat_in_one_read"] = self.run.cov.get("request_and_repeat_in_one_read", 0) + 1
+                    if dup1:
+                        if d1:
+                            self.witness("duplicate.delivered_to_application", ctx)
+                        if len(a1) != 1 or a1[0].result_code != 5012:
+                            self.witness("duplicate.not_answered_5012", {**ctx, "answers": [repr(f) for f in a1]})
+                    elif len(d1) != 1 or len(a1) != 1 or a1[0].result_code != 2001:
+                        self.witness("non_duplicate.rejected_or_not_delivered", {**ctx, "delivered": len(d1),
+                                                                                "answers": [repr(f) for f in a1]})
+                    if a1:
+                        self.record(origin, e2e)
+                        self.judged_dups += 1
+                        if d2:
+                            self.witness("duplicate.delivered_to_application", {**ctx, "which": "repeat in the same read"})
+                        if len(a2) != 1 or a2[0].result_code != 5012:
+                            self.witness("duplicate.not_answered_5012", {**ctx, "which": "repeat in the same read",
+                                                                         "answers": [repr(f) for f in a2]})
+                    if a2:
+                        self.record(origin, e2e)
+                    continue
                 if kind == "req":
                     _, o, e, t, mode = step[:5]
                     from diameter.node.peer import PEER_READY_WAITING_DWA
@@ -312,6 +357,10 @@ def run_shard(spec):
     run = Run()
     rng = random.Random(h64("C17", spec["seed"], spec["name"]))
     alpha = request_alphabet()
+    if spec["kind"] == "exhaustive" and spec["part"] == 0:
+        for N in (1, 2, 4):
+            run.one(N, [("pair", 0, 0, 0), ("pair", 0, 1, 1), ("req", 0, 0, 1, "now"), ("pair", 2, 2, 0), ("pair", 0, 0, 1)])
+            run.one(N, [("req", 0, 0, 0, "now"), ("pair", 0, 0, 1), ("pair", 1, 0, 0), ("reconn",), ("pair", 0, 0, 1)])
     if spec["kind"] == "exhaustive":
         # reduced alphabet for the exhaustive part: one origin varies in the last position only
         small = [a for a in alpha if a[1] == 0 and a[2] < 2] + [("req", 1, 0, 1, "now"), ("sub",), ("dwr",),
@@ -348,6 +397,8 @@ def run_shard(spec):
                     elif s[4] == "now" and rng.random() < 0.3:
                         s[4] = "rewrite"
                     seq.append(tuple(s) + (rng.randrange(nconn),))
+                elif r < 0.72:
+                    seq.append(("pair", rng.randrange(3), rng.randrange(3), int(rng.random() < 0.5), 0, rng.randrange(nconn)))
                 elif r < 0.78:
                     seq.append(("wd", rng.randrange(2), rng.randrange(3), int(rng.random() < 0.6), 0, rng.randrange(nconn)))
                 elif r < 0.84:
